@@ -47,12 +47,15 @@ def h02a(c, mode="sim"):
             sources = ["none", "market-not-open", "no-market-book", "exposure", "strategy-validate", "invalid-order", "txn-limit", "custom-control"]
         if mode == "live" and op != "place":
             sources.append("stream-down")
+        if mode == "sim" and op != "place":
+            sources.append("wrong-client")
         src = c.choose("refusal_source", sources)
         force = c.choose("force", [False, True]) if src != "no-market-book" else False
         c.tag("operation", op); c.tag("source", src); c.tag("force", force); c.tag("mode", mode)
         sent = []
+        other_client = None
         if mode == "sim":
-            fl, (client,), (strategy,) = cm.new_sim(strategy_kwargs=dict(max_order_exposure=1000, max_selection_exposure=1000, max_live_trade_count=5))
+            fl, (client, other_client), (strategy,) = cm.new_sim(n_clients=2, strategy_kwargs=dict(max_order_exposure=1000, max_selection_exposure=1000, max_live_trade_count=5))
         else:
             ex = lc.ExchangeDouble()
             fl, client, (strategy,) = cm.new_live(exchange=ex, strategy_kwargs=dict(max_order_exposure=1000, max_selection_exposure=1000, max_live_trade_count=5))
@@ -108,12 +111,25 @@ def h02a(c, mode="sim"):
             applies = False
         if src in ("market-not-open", "no-market-book", "exposure", "strategy-validate", "invalid-order", "txn-limit", "custom-control", "stream-down") and force:
             applies = False
+        # (a request made through another client's transaction is refused whatever `force` says: force skips the controls only)
         before = _snapshot(order, market, strategy)
         raised = None
         res = None
         try:
             if op == "place":
                 res = market.place_order(order, force=force)
+            elif src == "wrong-client":
+                from flumine.exceptions import OrderError
+                try:
+                    with market.transaction(client=other_client) as t:
+                        if op == "cancel":
+                            res = t.cancel_order(order, force=force)
+                        elif op == "update":
+                            res = t.update_order(order, "PERSIST", force=force)
+                        else:
+                            res = t.replace_order(order, 3.0, force=force)
+                except OrderError as e:
+                    raised = e
             elif op == "cancel":
                 res = market.cancel_order(order, force=force)
             elif op == "update":
